@@ -134,6 +134,13 @@ impl SrcBuilder<'_> {
         let quasiterminal_kind_from_terminal_match_arms_indent_3 = self
             .get_quasiterminal_kind_from_terminal_match_arms_src()
             .indent(3);
+        // A `match` without arms type-checks only on the (uninhabited) enum itself,
+        // not on a reference to it.
+        let quasiterminal_kind_from_terminal_scrutinee = if file.terminal_enum.variants.is_empty() {
+            "*terminal"
+        } else {
+            "terminal"
+        };
         let node_from_terminal_match_arms_indent_3 =
             self.get_node_from_terminal_match_arms_src().indent(3);
         let action_table_rows_indent_1 = self.get_action_table_rows_src().indent(1);
@@ -265,7 +272,7 @@ impl {quasiterminal_kind_enum_name} {{
     }}
 
     fn from_terminal(terminal: &{terminal_enum_name}) -> Self {{
-        match terminal {{
+        match {quasiterminal_kind_from_terminal_scrutinee} {{
 {quasiterminal_kind_from_terminal_match_arms_indent_3}
         }}
     }}
